@@ -126,6 +126,12 @@ def oracle(line: str, obs: Obs):
             if not any(l == "STOPPED" for l in lines):
                 fails.append({"what": "stop() did not return normally", "event": ev[:200],
                               "real": str([l for l in lines if l.startswith(("RAISE", "CRASH"))])})
+            # the applications are stopped (every one of them, whatever its kind) by the time stop() has returned
+            napps = len(parse_cfg(line)["apps"])
+            stopped = {l.split(" ")[1] for l in lines if l.startswith("APPSTOP ")}
+            if any(l == "STOPPED" for l in lines) and stopped != {f"a{i}" for i in range(napps)}:
+                fails.append({"what": "stop() returned without having stopped every application", "event": ev[:200],
+                              "real": f"stopped: {sorted(stopped)} of {napps}"})
             sw = next((kv(l) for l in lines if l.startswith("STOPWAIT ")), None)
             advs = sum(int(w.split("_")[1]) for w in t[3:] if w.startswith("adv_"))
             if sw is not None and int(sw["dt"]) > int(t[2]) + advs + 1:
@@ -195,6 +201,10 @@ def scenarios(rng: random.Random, tier: str):
                     evs.append(f"rx {k} " + nodegen.dpr(n(), n(), names[i]))
                     conn_ready.pop()
             k += 1
+        if conn_ready and rng.random() < 0.3:
+            # a request of the peer that the application has not answered (and never will) when stop() is called
+            c_, nm_ = rng.choice(conn_ready)
+            evs.append(f"rx {c_} " + nodegen.ccr(n(), n(), nm_))
         if any(True for _ in conn_ready) and rng.random() < 0.3:
             evs.append("adv 6")           # idle -> DWR sent -> WAITDWA
         force = rng.choice([0, 0, 0, 1])
@@ -230,6 +240,10 @@ def scenarios(rng: random.Random, tier: str):
             nested.append("adv_3")
         evs.append(f"stop {force} {tmo} " + " ".join(nested))
         out.append(CFG.replace("NODE ", f"NODE addrs={rng.choice([1, 1, 2, 3])};") + " | " + " | ".join(evs))
+    # a request of the peer still unanswered by the application when the DPA arrives: closed then all the same
+    for tmo in (3, 5):
+        out.append(CFG + " | start fail | acc | rx 1 " + nodegen.cer("peer1.x", "4", n(), n()) + " | rx 1 " + nodegen.ccr(n(), n(), "peer1.x") +
+                   f" | stop 0 {tmo} rx_1_" + nodegen.dpa(n(), n(), "peer1.x"))
     # wait timeout 0, peers that never answer / half-open connections: closed at once
     pre0 = CFG + " | start fail | acc | rx 1 " + nodegen.cer("peer1.x", "4", n(), n()) + " | acc"
     out.append(pre0 + " | stop 0 0")
